@@ -570,6 +570,10 @@ fn gen_parser(rng: &mut Rng, cfg: &GenCfg, sw: &Swarm, n: usize) -> ValParser {
                 };
                 if rng.chance(1, 4) {
                     pv.aliases.push(format!("pal{n:03}{}", (b'a' + i as u8) as char));
+                    if rng.chance(1, 2) {
+                        pv.aliases.push(format!("pbl{n:03}{}", (b'a' + i as u8) as char));
+                        pv.aliases.push(format!("pcl{n:03}{}", (b'a' + i as u8) as char));
+                    }
                 }
                 if cfg.help_features && ((rng.chance(1, 4) && k > 1 && i > 0) || rng.chance(1, 12)) {
                     pv.hide = true;
@@ -905,6 +909,11 @@ fn decorate_help(rng: &mut Rng, cfg: &GenCfg, sw: &Swarm, a: &mut ArgSpec, n: us
             0 | 1 => a.hide = true,
             2 => a.hide_short_help = true,
             3 => a.hide_long_help = true,
+            // hidden from both help modes one by one, but not `hide`: still part of usage, man pages and scripts
+            4 => {
+                a.hide_short_help = true;
+                a.hide_long_help = true;
+            }
             _ => {}
         }
     }
